@@ -99,7 +99,14 @@ async fn run_case(case: &Case, info: &mut CaseInfo, root: std::path::PathBuf) ->
         }
         tokio::time::sleep(std::time::Duration::from_millis(50)).await;
     }
-    ensure!(left == 0, "buffered-copies-removed", "receiver keeps {left} buffered rows / seq records after every version was applied or cleared");
+    if left != 0 {
+        let what = w.nodes[2].buffer_leftovers().await.map_err(infra)?;
+        if std::env::var_os("KVERIF_TRACE").is_some() {
+            w.nodes[2].drain_apply_now();
+            eprintln!("pending_apply {:?} triggers_seen {:?}", w.nodes[2].pending_apply, w.nodes[2].triggers_seen);
+        }
+        return Err(Fail::new("buffered-copies-removed", format!("receiver keeps {left} buffered rows / seq records after every version was applied or cleared: {what}")));
+    }
     let want = w.reference.tables().map_err(infra)?;
     let got = w.nodes[2].dump_tables().await.map_err(infra)?;
     if got != want {
